@@ -120,7 +120,7 @@ impl Engine for Msim {
                 strategy: gen::resize_overlap_case(),
             });
         }
-        if matches!(ctx.prop.as_str(), "C01" | "C02" | "C08" | "C09" | "C11") {
+        if matches!(ctx.prop.as_str(), "C01" | "C02" | "C06" | "C08" | "C09" | "C11") {
             stages.push(Stage {
                 name: "contention".into(),
                 cases: if thorough { 16 * 300 } else { 16 * 12 },
